@@ -108,10 +108,22 @@ pub fn run(args: &Args) -> serde_json::Value {
         let lad = random_ladder(&mut rng, nrep);
         let mut tc = build(&lad, &mut rng);
         let par = li % 3 == 2;
-        let rounds = 1 + rng.below(4) as usize;
+        let rounds = 2 + rng.below(4) as usize;
         for _ in 0..rounds {
-            tc.timesteps(1 + rng.below(5) as usize);
+            let nts = 1 + rng.below(5) as usize;
+            let rts = catch_unwind(AssertUnwindSafe(|| tc.timesteps(nts)));
+            if rts.is_err() {
+                oracle_failures.push(json!({"prop": "C06", "what": "a replica's timestep panicked (debug integrity check) in a tempering run", "ladder": li,
+                    "betas": lad.betas, "initial_cutoffs": lad.specs.iter().map(|s| s.cutoff).collect::<Vec<_>>()}));
+                break;
+            }
             let before = snapshot(&tc);
+            for (i, s) in before.iter().enumerate() {
+                if !naive_wf(&s.1, &s.0) {
+                    oracle_failures.push(json!({"prop": "C06", "what": "world line inconsistent after time steps in a tempering run", "ladder": li, "position": i,
+                        "betas": lad.betas, "initial_cutoffs": lad.specs.iter().map(|s| s.cutoff).collect::<Vec<_>>()}));
+                }
+            }
             if before.iter().any(|s| s.2 != before[0].2) {
                 n_unequal_cutoffs += 1
             }
@@ -250,7 +262,13 @@ pub fn run(args: &Args) -> serde_json::Value {
                 replica_coq(&sub.specs[1], sub.betas[1], &before[1]), t));
         }
     }
-    oracle_failures.truncate(40);
+    for f in oracle_failures.iter_mut() {
+        if f.get("prop").is_none() {
+            f["prop"] = json!("C10");
+        }
+    }
+    oracle_failures.sort_by_key(|f| f["prop"].as_str().unwrap_or("").to_string());
+    oracle_failures.truncate(60);
     let files = crate::write_shards(&args.out, "C10", "C10", &coq, if args.thorough { 300 } else { 40 });
     json!({"files": files, "evaluations": coq.len(), "distinct_nontrivial": distinct.len() + n_probes, "tempering_steps": n_steps,
         "accepted_exchanges": n_swaps, "threshold_probes": n_probes, "steps_with_unequal_cutoffs_before": n_unequal_cutoffs,
